@@ -32,6 +32,7 @@ CONFIGS = {
     "three_units":    [("m", 0, 0, 0), ("c:m", 0, 0, 0), ("k:m", 0, 0, 0)],
     "dB_same":        [("d:Bm", 0, 0, 0), ("d:Bm", 0, 0, 0)],
     "dB_other":       [("d:Bm", 0, 0, 0), ("d:BW", 0, 0, 0)],
+    "dB_prefix":      [("d:Bm", 0, 1, 1), ("Bm", 0, 1, 1)],                  # one level unit under two prefixes, uncertain arrays
     "decimal_left":   [("m", 1, 0, 0), ("c:m", 0, 0, 0)],
     "decimal_right":  [("m", 0, 0, 0), ("c:m", 1, 0, 0)],
     "array_left":     [("m", 0, 1, 0), ("c:m", 0, 0, 0)],
@@ -52,7 +53,7 @@ FIXED_DEVIATIONS = sorted(set(A.repaired_deviations(PID, ALL_DEVIATIONS)) |
                           {x for x in os.environ.get("VERIF_C07_FIXED", "").split(",") if x})      # (env: trial of a patch only)
 REP_PURE = ["add", "mul", "eq", "neg", "np.sqrt", "np.abs", "np.linspace", "np.sin", "value", "ctor_dict", "getitem", "radd", "pow1"]
 REP_PURE_QUICK = ["add", "mul", "eq", "neg", "np.abs", "np.linspace", "ctor_dict"]
-QUICK_REPAIRED = ["other_unit", "dB_same", "decimal_right", "array_uncertain", "angles", "dimensionless", "compound_units", "mixed_kinds"]
+QUICK_REPAIRED = ["other_unit", "dB_same", "dB_prefix", "decimal_right", "array_uncertain", "angles", "dimensionless", "compound_units", "mixed_kinds"]
 KINDS_PURE = ["value", "mul", "add", "neg", "eq"]        # histories of two operations over quantities of different kinds
 
 
@@ -106,7 +107,7 @@ BASE_VALUES = [0.5, 0.25, 0.125, 0.0625]
 def unit_mapping(rnd, style):
     """abstract unit id -> concrete unit id.  style 'plain': identity; 'table': m/cm/km and s replaced by arbitrary
     linear table units of one dimension class resp. of an independent one."""
-    ident = {u: u for u in ("m", "c:m", "k:m", "s", "deg", "rad", "d:Bm", "d:BW", "%")}
+    ident = {u: u for u in ("m", "c:m", "k:m", "s", "deg", "rad", "d:Bm", "d:BW", "Bm", "%")}
     if style == "plain":
         return ident
     lin = A.linear_units()
